@@ -138,7 +138,7 @@ def order_check(case):
 
 PARTS = {
     "order": {"check": order_check, "strategy": order_cases, "budget": {"quick": 64, "thorough": 640}},
-    "sim": {"check": check_case, "strategy": cases, "budget": {"quick": 1500, "thorough": 40000}},
+    "sim": {"check": check_case, "strategy": cases, "budget": {"quick": 3000, "thorough": 40000}},
     "rate": {"check": rate_check, "strategy": rate_cases, "budget": {"quick": 96, "thorough": 640}},
 }
 
